@@ -232,13 +232,15 @@ def make_doc(rng, base, kind, k=0, prolog='', start_end=None, epilog='', body_le
     """One well-formed XML document (str).  kind: 'note' | 'reply' (to request k) | 'other'.  start_end: wanted offset (in
     characters, from the beginning of the text) just past the '>' that ends the root's start tag; reached by lengthening
     the prolog (a comment / white space) or the start tag (xmlns:* declarations, long attribute values), as `how` says;
-    non-ASCII characters in about 70 % of the documents so that offsets in characters and in octets differ."""
+    non-ASCII characters in about 70 % of the documents so that offsets in characters and in octets differ.
+    lead: what the text begins with - white space (no XML declaration then) or U+FEFF, the byte order mark XML 1.0 4.3.3 allows in
+    front of a document (with or without XML declaration): for framing the first character of the message text."""
     how = how or rng.choice(HOWS)
     mb = rng.random() < 0.7
     pro = {'': '', 'decl': '<?xml version="1.0" encoding="UTF-8"?>', 'decl+nl': '<?xml version="1.0" encoding="UTF-8"?>\n',
            'comment': _comment(rng, rng.randint(0, 30)) + '\n', 'pi': '<?c01 %s?>' % _attrval(rng, 8),
            'ws': rng.choice([' ', '\n', '\r\n\t ', '\n\n']), 'decl+comment': '<?xml version="1.0"?>\n' + _comment(rng, 12) + '\n'}[prolog]
-    if prolog.startswith('decl'): lead = ''          # nothing may precede an XML declaration
+    if prolog.startswith('decl') and lead != F.BOM: lead = ''          # nothing but a byte order mark may precede an XML declaration
     if kind == 'note':
         name, attrs = 'notification', [('xmlns', NOTIF_NS)]
         inner = '<eventTime>2024-01-0%dT00:00:0%dZ</eventTime><ev xmlns="urn:c01:ev"><seq>%d</seq><t>%s</t></ev>' % (
@@ -316,7 +318,7 @@ def gen_docs(rng, base, profile, size='small'):
             k = nreq; nreq += 1
         if size == 'tiny':
             m = make_doc(rng, base, kind, k, prolog=rng.choice(['', '', 'ws', 'decl']), epilog=rng.choice(['', '\n']),
-                         body_len=rng.randint(0, 3), lead=rng.choice(['', '', ' ', '\n']))
+                         body_len=rng.randint(0, 3), lead=rng.choice(['', '', ' ', '\n', F.BOM]))
         elif size in ('edge', 'far') and i == special:
             if size == 'edge':
                 b = rng.choice(BOUNDARIES[:3] if rng.random() < 0.8 else BOUNDARIES)
@@ -324,12 +326,12 @@ def gen_docs(rng, base, profile, size='small'):
             else:
                 se = rng.choice([5000, 9000, 20000, 40000, 70000]) + rng.randint(0, 2000)
             m = make_doc(rng, base, kind, k, prolog=rng.choice(PROLOGS), start_end=se, epilog=rng.choice(EPILOGS),
-                         lead=rng.choice(['', '', '\n']), nc_prefix=rng.random() < 0.2)
+                         lead=rng.choice(['', '', '\n', F.BOM]), nc_prefix=rng.random() < 0.2)
             tags['start_end'] = 'edge%d' % b if size == 'edge' else 'far'
         else:
             se = rng.choice([None, None, None, rng.randint(120, 1500)])
             m = make_doc(rng, base, kind, k, prolog=rng.choice(PROLOGS), start_end=se, epilog=rng.choice(EPILOGS),
-                         lead=rng.choice(['', '', ' ', '\n', '\r\n']), nc_prefix=rng.random() < 0.2)
+                         lead=rng.choice(['', '', ' ', '\n', '\r\n', F.BOM, F.BOM]), nc_prefix=rng.random() < 0.2)
         ET.fromstring(m.encode('utf-8'))            # harness self-check: the generator produces well-formed documents
         msgs.append(m); kinds.append(kind)
     return msgs, kinds, nreq, tags
